@@ -42,6 +42,9 @@ CAT = {
     'func-struct-anonymous': ('func anon() string {\n\tv := struct {\n\t\tA int\n\t\tB struct{ C string }\n\t}{A: 1}\n\tv.B.C = "c"\n\tvar i interface{ M() }\n\treturn fmt.Sprint(v, i == nil)\n}\n', ['anon'], 'anon()'),
     'func-multi-assign-swap': ('func swap() string {\n\ta, b, c := 1, 2, 3\n\ta, b, c = c, a, b\n\tarr := []int{1, 2}\n\tarr[0], arr[1] = arr[1], arr[0]\n\tm := map[string]int{}\n\tm["x"], a = a, 9\n\tv, ok := m["y"]\n\treturn fmt.Sprint(a, b, c, arr, m, v, ok)\n}\n', ['swap'], 'swap()'),
     'func-const-expr-shifts': ('const (\n\tkb = 1 << (10 * (iota + 1))\n\tmb\n)\n\nconst mask = ^uint8(0) >> 3\n\nfunc consts() string { return fmt.Sprint(kb, mb, mask, 7/2, 7.0/2, 1e3, 0x1F, 0o17, 0b101, 1_000) }\n', ['kb', 'mask', 'consts'], 'consts()'),
+    'type-alias': ('type label = string\n\ntype defined string\n\nfunc kinds(v interface{}) string {\n\tswitch v.(type) {\n\tcase string:\n\t\treturn "string"\n\tcase defined:\n\t\treturn "defined"\n\t}\n\treturn "other"\n}\n\nfunc aliasProbe() string { return kinds(label("x")) + kinds(defined("y")) + fmt.Sprintf("%T", label("z")) }\n',
+                   ['label', 'defined', 'kinds', 'aliasProbe'], 'aliasProbe()'),
+    'func-renamed-local-and-inner-fresh-name': ('func pick(n int) int {\n\treflect := n * 2\n\tout := reflect\n\t{\n\t\treflect2 := 100\n\t\tout += reflect2 + reflect\n\t}\n\tfmt2 := 1\n\tfmt := out + fmt2\n\treturn fmt\n}\n', ['pick'], 'pick(3)'),
     'func-string-rune-literals': ('func strs() string {\n\treturn "tab\\t" + `raw\\n` + string(\'x\') + string(\'\\n\') + "\\u00e9\\x41" + fmt.Sprint(\'a\', len("日本"), "q\\"q")\n}\n', ['strs'], 'strs()'),
 }
 
